@@ -12,6 +12,8 @@ from gen import A, C, N, call, fcall, lam, mcall
 ID = "C19"
 COQ_FILES = ["FA/Proofs/AggregateProofs.v", "FA/Proofs/AggregateSem.v", "FA/Properties/C19.v"]
 NAMES = ["len", "Count", "Sum", "Max", "Min"]
+NEAR = ["n", "e", "l", "C", "t", "le", "en", "Co", "nt", "ount", "lenC", "lenCount", "Len", "LEN", "count", "Counts", "length", "sum", "SUM", "Sums",
+        "Su", "um", "S", "M", "Ma", "ax", "in", "Mi", "MaxMin", "SumMax", "max", "min", "Minimum", "_len", "len_", "Count_"]
 
 LEVEL = ("Coq theorems over the executable model `agg` whose rule table is regenerated from the source on every run: "
          "agg_sem (fold = len/sum for every sequence, every backend), agg_max/min (fold = max/min with 0 added), "
@@ -88,6 +90,10 @@ def cases(ctx):
                 "Max(s, default=0)", "f(len=1)", "Sum(*a)", "Sum(**k)", "[len(j) for j in Sum(s)]"]:
         out.append(ast.parse(src, mode="eval").body)
     out.append(call(N("Sum"), []))
+    # near misses of the five names: pieces, concatenations and case variants are ordinary functions
+    for nm in NEAR:
+        out.append(fcall(nm, N("s")))
+        out.append(fcall("Sum", fcall("Select", N("s"), lam("j", fcall(nm, N("j"))))))
     size = ctx.budget(4, 5)
     by = gen.enum_trees(_leaves, _builders(), size)
     allt = [t for s in sorted(by) for t in by[s]]
@@ -99,7 +105,7 @@ def cases(ctx):
         ctx.notes.append("enumeration to size %d exhaustive: %d trees" % (size, len(allt)))
     out += allt
     rg = gen.RandomExpr(ctx.rng, names=["s", "Sum", "len"], attrs=["jets", "Sum", "Count"],
-                        funcs=NAMES + ["f"], methods=NAMES + ["m"])
+                        funcs=NAMES + ["f", "n", "e", "le", "Co", "lenCount", "sum", "Len"], methods=NAMES + ["m"])
     for _ in range(ctx.budget(1500, 30000)):
         out.append(rg.expr(ctx.rng.randrange(2, 6)))
     return out
